@@ -237,6 +237,11 @@ func bridgeWorld(w *World, mu *sync.Mutex, conns []*bridgeConn, after func()) {
 				if _, err := io.ReadFull(c, g); err != nil || !bytes.Equal(g, bridgeGreeting) {
 					mu.Lock()
 					bc.C.ReadErr = fmt.Sprintf("greeting: %v %q", err, g)
+					if err != nil {
+						// the connection ended before the greeting arrived
+						bc.C.SawEnd = true
+						bc.C.EOFAt = w.K.Now()
+					}
 					mu.Unlock()
 					c.Close()
 					return
@@ -327,12 +332,29 @@ func worldC15(w *World) {
 		passthrough = false // the greeting is not HTTP
 	}
 	passBody := "pass-body-" + strings.Repeat("z", t.Choice(3000, "passlen"))
+	slowPass := t.Rare(1, 3, "slowpassthrough")
 	passStatus := ""
 	mu := &sync.Mutex{}
 	bridgeWorld(w, mu, conns, func() {
 		if passthrough {
 			cl := w.Client()
-			req, _ := http.NewRequest("POST", "http://bback:8080/some/path?x=1", strings.NewReader(passBody))
+			var reqBody io.Reader = strings.NewReader(passBody)
+			if slowPass {
+				// the body arrives in two halves, six seconds apart
+				pr, pw := io.Pipe()
+				go func() {
+					pw.Write([]byte(passBody[:len(passBody)/2]))
+					time.Sleep(6 * time.Second)
+					pw.Write([]byte(passBody[len(passBody)/2:]))
+					pw.Close()
+				}()
+				reqBody = pr
+				w.Probe("slow_passthrough_upload")
+			}
+			req, _ := http.NewRequest("POST", "http://bback:8080/some/path?x=1", reqBody)
+			if slowPass {
+				req.ContentLength = int64(len(passBody))
+			}
 			req.Header.Set("X-Pass", "1")
 			resp, err := cl.Do(req)
 			if err != nil {
@@ -473,6 +495,16 @@ func worldC16(w *World) {
 	}
 	const budget = 60 * time.Second
 	chooseGreeting(w)
+	// the TCP server may be down: every dial of the bridge backend is refused; each
+	// client must then see the end of its connection, and nothing may stay open
+	serverDown := t.Rare(1, 8, "serverdown")
+	if serverDown {
+		w.K.Faults = append(w.K.Faults, &sim.NetFault{ToAddr: "bback:8081", ConnOrd: -1, Kind: sim.FaultRefuse})
+		for _, bc := range conns {
+			bc.C.CloseAfterWrites, bc.S.CloseAfterWrites = false, false
+		}
+		w.Probe("tcp_server_down")
+	}
 	mu := &sync.Mutex{}
 	bridgeWorld(w, mu, conns, func() {
 		// everything is written and closed within ~10 s; then the budget
@@ -490,6 +522,12 @@ func worldC16(w *World) {
 		mu.Lock()
 		defer mu.Unlock()
 		for _, bc := range conns {
+			if serverDown {
+				if !bc.C.SawEnd {
+					w.Violation("close-propagation", "the TCP server could not be reached, yet the client never observed the end of its connection | connection %d still open %v later", bc.I, budget)
+				}
+				continue
+			}
 			if !bc.SrvSaw {
 				w.Violation("connect", "a client connection never reached the TCP server through the bridge | connection %d", bc.I)
 				continue
@@ -544,6 +582,13 @@ func worldC16(w *World) {
 		})
 		allClosed := true
 		for _, bc := range conns {
+			if serverDown {
+				// the server side never existed; the client closes after having seen the end
+				if !bc.C.SawEnd {
+					allClosed = false
+				}
+				continue
+			}
 			if !(bc.C.Closed || bc.C.SawEnd) || !(bc.S.Closed || bc.S.SawEnd) {
 				allClosed = false
 			}
